@@ -1,3 +1,4 @@
+use super::TimePropertiesDS;
 use crate::{
     config::InstanceConfig,
     datastructures::{
@@ -23,6 +24,10 @@ pub(crate) struct InternalDefaultDS {
     pub(crate) domain_number: u8,
     pub(crate) slave_only: bool,
     pub(crate) sdo_id: SdoId,
+    /// The time properties this instance advertises while it is grandmaster
+    /// itself (the ones it was created with). Kept here so that they travel with
+    /// the M1/M2 state decisions of the BMCA.
+    pub(crate) local_time_properties: TimePropertiesDS,
 }
 
 impl InternalDefaultDS {
@@ -36,6 +41,7 @@ impl InternalDefaultDS {
             domain_number: config.domain_number,
             slave_only: config.slave_only,
             sdo_id: config.sdo_id,
+            local_time_properties: TimePropertiesDS::default(),
         }
     }
 }
